@@ -422,7 +422,9 @@ def cases(tier, seed):
              ["-w", "-z", "-s255", "-l"], ["-w", "-D", "-z", "-l"], ["-D", "-l"], ["-s80", "-s16"], ["-l", "-l"], ["-lz"], ["-wDzl"],
              ["--filter-unused-linenum"], ["--dont-initialize-vars", "--dont-run-width-32"], ["--dont-output-dependencies", "-l"],
              ["--default-string-storage=48", "-z"], ["-z", "--default-string-storage=20", "-s70"], ["-c", "-D", "-s16"]]
-    stems = ["prog", "my-prog", "A_1", "x9", "game.v2", "hello world", "star+", "caf\u00e9", "hello ", "9", "a.b.c", "x(1)"]
+    stems = ["prog", "my-prog", "A_1", "x9", "game.v2", "hello world", "star+", "caf\u00e9", "hello ", "9", "a.b.c", "x(1)",
+             # long file names (the procedure is named after the file, however long the name is)
+             "maze_generator_for_the_coco_3", "maze_generator_for_the_coco_3x", "the-quick-brown-fox-jumps-over-the-lazy", "x" * 64, "A1_" * 30]
     k = 0
     for i, t in enumerate(ODD_TEXTS):
         # characters that line-splitting routines (not the tool's grammar) take for line ends, inside literals / comments / DATA
